@@ -577,6 +577,18 @@ func (s *Sim) handle(verb string, def *ResourceDef, key Key, body map[string]int
 			if controllerRefs(body) > 1 {
 				return 422, "Invalid", nil
 			}
+			// no new finalizers may be added to an object that is being deleted
+			if mstr(cur, "deletionTimestamp") != "" {
+				old := map[interface{}]bool{}
+				for _, f := range finalizers(cur) {
+					old[f] = true
+				}
+				for _, f := range finalizers(body) {
+					if !old[f] {
+						return 422, "Invalid", nil
+					}
+				}
+			}
 			o = DeepCopy(body).(map[string]interface{})
 			m, cm := meta(o), meta(cur)
 			for _, f := range []string{"uid", "creationTimestamp", "generation", "deletionTimestamp", "deletionGracePeriodSeconds", "namespace", "name", "selfLink"} {
